@@ -364,7 +364,7 @@ def run(tier, seed):
     # f <= 1 interruption at the default schedule for every case; d <= 1 (quick) / 2 (thorough) deviations without faults
     res = grid.split_tasks(common.pmap, chunk, cases, (seed,), 0, 1)
     n_f = res.counts.get("executions", 0)
-    dcases = [dict(c, faults=False) for c in cases if c["resume"] == "reconnect" and c["pre"] != "concurrent"]
+    dcases = [dict(c, faults=False) for c in cases if c["resume"] == "reconnect" and c["pre"] != "concurrent" and (tier != "quick" or c["size"] != 100)]
     d_bound = 2 if tier == "quick" else 3
     res.merge(grid.split_tasks(common.pmap, chunk, dcases, (seed,), d_bound, 0))
     # two concurrent uploads have about three times as many choice points: one deviation less
